@@ -364,4 +364,89 @@ theorem roundtrip_facts (t : Int) (h0 : -62167219200000 ≤ t) (hmax : t ≤ 253
   refine ⟨by omega, by omega, by omega, by omega, by omega, by omega, ?_⟩
   rw [e1, e2, e3, e4, e5, e6]; exact hc
 
+@[simp] theorem isSpace_dig (n : Nat) : isSpace (dig n) = false := (dig_props n).2.2.1
+
+/-- the HTTP format with abstract (3-byte) weekday and month names -/
+def httpList (w0 w1 w2 x0 x1 x2 : UInt8) (y d h mi s : Nat) : Bytes :=
+  [w0, w1, w2, 44, 32, dig (d / 10), dig d, 32, x0, x1, x2, 32, dig (y / 1000), dig (y / 100), dig (y / 10), dig y, 32,
+   dig (h / 10), dig h, 58, dig (mi / 10), dig mi, 58, dig (s / 10), dig s, 32, 71, 77, 84]
+
+theorem parse_httpList (w0 w1 w2 x0 x1 x2 : UInt8) (y d h mi s : Nat) (M : Int)
+    (hw0 : 65 < w0 ∧ w0 < 90) (hw : isSpace w0 = false ∧ isSpace w1 = false ∧ isSpace w2 = false)
+    (hx : isSpace x0 = false ∧ isSpace x1 = false ∧ isSpace x2 = false) (hM : lookupMonth [x0, x1, x2] = M) (hM0 : M ≠ 0)
+    (hy : y ≤ 9999) (hd : d ≤ 99) (hh : h ≤ 99) (hmi : mi ≤ 99) (hs : s ≤ 99) :
+    parse (httpList w0 w1 w2 x0 x1 x2 y d h mi s) = some (construct y M d h mi s) := by
+  have i44 : isSpace 44 = false := by decide
+  have i32 : isSpace 32 = true := by decide
+  have i58 : isSpace 58 = false := by decide
+  have i71 : isSpace 71 = false := by decide
+  have i77 : isSpace 77 = false := by decide
+  have i84 : isSpace 84 = false := by decide
+  have hsplit : splitWs (httpList w0 w1 w2 x0 x1 x2 y d h mi s) =
+      [[w0, w1, w2, 44], [dig (d / 10), dig d], [x0, x1, x2], [dig (y / 1000), dig (y / 100), dig (y / 10), dig y],
+       [dig (h / 10), dig h, 58, dig (mi / 10), dig mi, 58, dig (s / 10), dig s], [71, 77, 84]] := by
+    simp [splitWs, splitWsAux, httpList, hw.1, hw.2.1, hw.2.2, hx.1, hx.2.1, hx.2.2, i44, i32, i58, i71, i77, i84]
+  have h0 : rd (httpList w0 w1 w2 x0 x1 x2 y d h mi s) 0 = some w0 := rfl
+  have hD : parseInt [dig (d / 10), dig d] 0 2 = some (d : Int) := by
+    rw [parseInt2 _ 0 (d / 10) d (by simp) (by simp)]; congr 1; omega
+  have hY : parseInt [dig (y / 1000), dig (y / 100), dig (y / 10), dig y] 0 4 = some (y : Int) := by
+    rw [parseInt4 _ 0 (y / 1000) (y / 100) (y / 10) y (by simp) (by simp) (by simp) (by simp)]; congr 1; omega
+  have hH : parseInt [dig (h / 10), dig h, 58, dig (mi / 10), dig mi, 58, dig (s / 10), dig s] 0 2 = some (h : Int) := by
+    rw [parseInt2 _ 0 (h / 10) h (by simp) (by simp)]; congr 1; omega
+  have hMi : parseInt [dig (h / 10), dig h, 58, dig (mi / 10), dig mi, 58, dig (s / 10), dig s] 3 2 = some (mi : Int) := by
+    rw [parseInt2 _ 3 (mi / 10) mi (by simp) (by simp)]; congr 1; omega
+  have hS : parseInt [dig (h / 10), dig h, 58, dig (mi / 10), dig mi, 58, dig (s / 10), dig s] 6 2 = some (s : Int) := by
+    rw [parseInt2 _ 6 (s / 10) s (by simp) (by simp)]; congr 1; omega
+  simp only [parse, h0, Option.bind_some, hw0, and_self, if_true, parseHttp, hsplit]
+  simp [hD, hY, hH, hMi, hS, hM, hM0]
+  intro h; exfalso; omega
+
+
+theorem fmt_http_eq (f : Fields) (ms : Nat) (w0 w1 w2 x0 x1 x2 : UInt8) (hw : wdNames.getD f.weekDay.toNat [] = [w0, w1, w2])
+    (hx : mnNames.getD (f.month.toNat - 1) [] = [x0, x1, x2]) :
+    fmtFields .http f ms = httpList w0 w1 w2 x0 x1 x2 f.year.toNat f.day.toNat f.hours.toNat f.minutes.toNat f.seconds.toNat := by
+  unfold fmtFields
+  simp only [hw, hx]
+  rfl
+
+def nameOk (n : Bytes) : Bool := n.length == 3 && n.all (fun c => !isSpace c)
+
+theorem three (n : Bytes) (h : nameOk n = true) : ∃ a b c, n = [a, b, c] ∧ isSpace a = false ∧ isSpace b = false ∧ isSpace c = false := by
+  match n, h with
+  | [a, b, c], h =>
+    simp [nameOk] at h
+    exact ⟨a, b, c, rfl, h.1, h.2.1, h.2.2⟩
+
+/-- the weekday names used by the HTTP format: three bytes without white space, the first one in 'B'..'Y' -/
+theorem wd_names_ok : ∀ i : Fin 7, nameOk (wdNames.getD i.val []) = true ∧
+    65 < (wdNames.getD i.val []).getD 0 0 ∧ (wdNames.getD i.val []).getD 0 0 < 90 := by decide
+
+/-- the month names of the formatter are keys of the parser's month map, with the right month numbers -/
+theorem mn_names_ok : ∀ i : Fin 12, nameOk (mnNames.getD i.val []) = true ∧ lookupMonth (mnNames.getD i.val []) = (i.val : Int) + 1 := by
+  decide
+
+theorem parse_http_roundtrip (t : Int) (h0 : -62167219200000 ≤ t) (hmax : t ≤ 253402300799999) :
+    parse (toUTCString .http t) = some (some (t - t % 1000)) := by
+  obtain ⟨a, b, c, d, e, f, g⟩ := roundtrip_facts t h0 hmax
+  have hr : 0 ≤ t / 1000 / 86400 + 719528 := by omega
+  obtain ⟨hy, hm1, hm2, hd1, hd2, hdn, hh1, hh2, hmi1, hmi2, hs1, hs2, hsum⟩ := calcF_facts t _ rfl hr
+  have hwd := weekday_spec t _ rfl
+  have hwd0 : 0 ≤ (calcF t).weekDay ∧ (calcF t).weekDay < 7 := by omega
+  have hW := wd_names_ok ⟨(calcF t).weekDay.toNat, by omega⟩
+  have hMn := mn_names_ok ⟨(calcF t).month.toNat - 1, by omega⟩
+  simp only at hW hMn
+  obtain ⟨w0, w1, w2, hw, hws⟩ := three _ hW.1
+  obtain ⟨x0, x1, x2, hx, hxs⟩ := three _ hMn.1
+  unfold toUTCString
+  rw [fmt_http_eq _ _ w0 w1 w2 x0 x1 x2 hw hx]
+  have hlk : lookupMonth [x0, x1, x2] = (calcF t).month := by
+    rw [← hx, hMn.2]
+    have : (((calcF t).month.toNat - 1 : Nat) : Int) = (calcF t).month - 1 := by omega
+    omega
+  have hw0 : 65 < w0 ∧ w0 < 90 := by
+    have := hW.2; rw [hw] at this; simpa using this
+  rw [parse_httpList w0 w1 w2 x0 x1 x2 _ _ _ _ _ (calcF t).month hw0 hws hxs hlk (by omega) a (by omega) (by omega) (by omega) (by omega)]
+  have e2 : (((calcF t).month.toNat : Nat) : Int) = (calcF t).month := Int.toNat_of_nonneg (by omega)
+  rw [← e2]; rw [g]
+
 end AslProofs.DateFmt
